@@ -53,7 +53,10 @@ def handle (line : String) : String :=
           match ins? with
           | some i => X86.postLine mode (X86.step i (X86.ofMach mode ms)) watchS windows
           | none => "-"
-        model ++ "\t" ++ spec
+        let inMirror := match ins? with
+          | some i => if (X86Lift.liftIns i).isSome then "mirrored" else "-"
+          | none => "-"
+        model ++ "\t" ++ spec ++ "\t" ++ inMirror
       | _, _ => "bad-request\t-"
     | _, _ => "bad-request\t-"
   | _ => "bad-request\t-"
